@@ -29,8 +29,8 @@ Inductive cstmt :=
 Definition cfile := (ws * list (cstmt * ws))%type.    (* leading whitespace, then statements each followed by a gap *)
 
 (* ---- render ---- *)
-Definition r_item (i : citem) : bytes :=
-  arg_str (ci_arg i) ++ ci_ws i ++ match ci_comma i with Some w => [44] ++ w | None => [] end.
+Definition comma_text (c : option ws) : bytes := match c with Some w => 44 :: w | None => [] end.
+Definition r_item (i : citem) : bytes := arg_str (ci_arg i) ++ ci_ws i ++ comma_text (ci_comma i).
 Definition r_args (a : cargs) : bytes := [40] ++ ca_ws a ++ concat (map r_item (ca_items a)) ++ [41].
 Definition r_outs (o : couts) : bytes :=
   match o with
